@@ -533,6 +533,53 @@ func boxHeld(c *hx.Ctx, f, t string, clean bool, qs []byte) {
 	be.Close(20 * time.Millisecond)
 }
 
+// boxSizes: payload sizes 0 .. 64 KiB and beyond through the whole broker (codec, stream, queues, dequeuer)
+func boxSizes(c *hx.Ctx) {
+	boxN++
+	be := broker.NewMemoryBackend()
+	eng := broker.NewEngine(be)
+	w := &boxWorld{c: c, k: boxN, be: be, eng: eng, peers: map[int]*peer{}}
+	c.Emit("boxstart %d", w.k)
+	w.connect(99, "mk", true, nil)
+	w.connect(1, "x", false, nil)
+	w.connect(2, "", true, nil)
+	if !w.failed {
+		w.sub(1, []subT{{"m/1", 1}, {"a/#", 1}})
+		w.sub(2, []subT{{"m/2", 1}, {"+/b", 2}, {"a/b", 0}})
+	}
+	for i, n := range []int{0, 1, 127, 128, 16383, 16384, 65535, 65536, 70001} {
+		if w.failed {
+			break
+		}
+		q := byte(i % 3)
+		if n == 0 {
+			q = 0
+		}
+		pl := make([]byte, n)
+		for j := range pl {
+			pl[j] = byte(j*5 + i)
+		}
+		if n > 0 {
+			pl[n-1] = '0' + q // the peers read the published QoS from the last byte
+		}
+		w.pub(99, packet.Message{Topic: "a/b", Payload: pl, QOS: packet.QOS(q), Retain: n > 0 && i%2 == 0})
+		w.drainAll()
+	}
+	if !w.failed { // a late subscriber gets the last retained one
+		w.connect(3, "", true, nil)
+		if !w.failed {
+			w.sub(3, []subT{{"m/3", 1}, {"#", 2}})
+			w.drainAll()
+		}
+	}
+	c.Emit("boxend %d", w.k)
+	c.Stat("box_scenarios", 1)
+	for _, p := range w.peers {
+		_ = p.conn.Close()
+	}
+	be.Close(20 * time.Millisecond)
+}
+
 func runBox(c *hx.Ctx) {
 	if c.Replay != "" {
 		return
@@ -544,6 +591,7 @@ func runBox(c *hx.Ctx) {
 	for i := 0; i < n; i++ {
 		boxScenario(c, l)
 	}
+	boxSizes(c)
 	// queued-while-unsubscribing scenarios
 	pairs := [][2]string{{"a/+", "a/b"}, {"#", "b"}, {"a/#", "a"}, {"a/b", "a/b"}, {"+/b", "b/b"}, {"+", "a"}, {"/a", "/a"}, {"a/", "a/"}}
 	held := 4
